@@ -224,3 +224,45 @@ PROCESS_PS = Contract(
     props=["C05", "C07", "C11"],
 )
 CONTRACTS += [PROCESS_PS]
+
+
+# ---------------------------------------------------------------------------------------------- PostSelection.validate: the conjunction of its rules
+def _ps_with_rules(shapes):
+    def build(ex, name):
+        rules = []
+        for i, (nm, no) in enumerate(shapes):
+            ms = tuple(z3.Int(f"r{i}m{k}") for k in range(nm))
+            ns = tuple(z3.Int(f"r{i}n{k}") for k in range(no))
+            rules.append(ex.alloc(Obj("Rule", (("modes", ms), ("n_photons", ns))), f"{name}.rules[{i}]"))
+        return ex.alloc(Obj("PostSelection", (("multi_rules", z3.BoolVal(True)), ("_PostSelection__rules", ex.alloc(CList(tuple(rules)), f"{name}.__rules")),
+                                               ("_PostSelection__modes_with_rules", ex.make(f"{name}.mwr", "set[int]", f"{name}.mwr")))), name)
+    build.label = "rules " + repr(shapes)
+    return build
+
+
+def _ps_validate(shapes):
+    names = {}
+    conj = []
+    pre = []
+    for i, (nm, no) in enumerate(shapes):
+        tot = " + ".join(f"at(state._State__s, r{i}m{k})" for k in range(nm))
+        conj.append("(" + " or ".join(f"{tot} == r{i}n{k}" for k in range(no)) + ")")
+        pre += [f"0 <= r{i}m{k} and r{i}m{k} < len(state._State__s)" for k in range(nm)]
+        names.update({f"r{i}m{k}": "int" for k in range(nm)})
+        names.update({f"r{i}n{k}": "int" for k in range(no)})
+    c = Contract(
+        target=f"{PS}:PostSelection.validate",
+        types={"self": _ps_with_rules(shapes), "state": "obj:State{__s:list[int]}", **names},
+        requires=pre, modifies=[],
+        # accepted exactly when EVERY rule holds: the photons on a rule's modes add up to one of its allowed totals
+        ensures={"all_rules_hold": "result == (" + (" and ".join(conj) or "True") + ")"},
+        raises={}, props=["C05", "C07"],
+        inline=["validate"],
+    )
+    c.no_callee = True
+    c.label = "rules " + repr(shapes)
+    return c
+
+
+PS_VALIDATE = [_ps_validate(()), _ps_validate(((1, 1),)), _ps_validate(((2, 2),)), _ps_validate(((1, 2), (2, 1))), _ps_validate(((1, 1), (1, 1), (3, 2)))]
+CONTRACTS += PS_VALIDATE
